@@ -92,7 +92,7 @@ func buildView(c c11Case, dir string) (fsutil.FS, string, error) {
 		if err != nil {
 			return nil, "", err
 		}
-		inner, err := fsutil.NewFilterFS(lower, &fsutil.FilterOpt{IncludePatterns: c.Include, ExcludePatterns: c.Exclude, FollowPaths: c.Follow})
+		inner, err := newFilterFSReusedOpt(lower, &fsutil.FilterOpt{IncludePatterns: c.Include, ExcludePatterns: c.Exclude, FollowPaths: c.Follow})
 		if err != nil {
 			return nil, "", err
 		}
@@ -117,7 +117,7 @@ func buildView(c c11Case, dir string) (fsutil.FS, string, error) {
 	if c.FollowEmpty {
 		opt.FollowPaths = []string{}
 	}
-	v, err := fsutil.NewFilterFS(base, opt)
+	v, err := newFilterFSReusedOpt(base, opt)
 	return v, prefix, err
 }
 
@@ -196,10 +196,14 @@ func judgeC11(c c11Case) (string, string) {
 		return "walk-failed", err.Error()
 	}
 	inView := map[string]bool{}
+	sizeOf := map[string]int64{}
 	var listedPaths []string
 	for _, e := range listed {
 		inView[e.path] = true
 		listedPaths = append(listedPaths, e.path)
+		if e.st.Mode&uint32(os.ModeType) == 0 && e.st.Linkname == "" {
+			sizeOf[e.path] = e.st.Size
+		}
 	}
 	// (3) walk/open agreement
 	pre := ""
@@ -231,6 +235,9 @@ func judgeC11(c c11Case) (string, string) {
 			return key, fmt.Sprintf("the filtered walk reports %q but opening it through the same view fails: %v", p, oerr)
 		case inView[p] && !bytes.Equal(data, n.Data):
 			return "open-wrong-bytes", fmt.Sprintf("%q opened through the view yields %d bytes, file has %d", p, len(data), len(n.Data))
+		case inView[p] && sizeOfHas(sizeOf, p) && sizeOf[p] != int64(len(data)):
+			// an entry reported as a file in its own right (not as a link) announces the bytes it yields
+			return "size-differs-from-opened-bytes", fmt.Sprintf("the view reports %q as a regular file of %d bytes, opening it yields %d", p, sizeOf[p], len(data))
 		case !inView[p] && oerr == nil && !(c.Under == "map" && n.Path == "a/x"):
 			key := "hidden-file-can-be-opened"
 			if pmClass(c, n.Path) {
@@ -566,3 +573,5 @@ func replayC11(raw json.RawMessage) string {
 	}
 	return k + ": " + m
 }
+
+func sizeOfHas(m map[string]int64, p string) bool { _, ok := m[p]; return ok }
